@@ -83,3 +83,164 @@ func Harness_C11_force_cut() {
 	v.Assert("C11.cut.idempotent", ForceValidStringValue(f) == f)
 	v.Reach("C11.cut.end")
 }
+
+// The 128-byte cut with a 2-byte symbolic window: 126..128 ASCII bytes (optionally starting with a
+// space, which forces the slow path and a trim), 2 arbitrary bytes, then "b": a multi-byte rune may
+// straddle byte 128. Forcing yields a valid value of at most 128 bytes, idempotent; strict
+// normalisation errs exactly on invalid UTF-8 and otherwise equals forcing.
+func Harness_C11_cut_2bytes() {
+	pre := 126 + v.Choice(3)
+	b := make([]byte, 0, pre+3)
+	first := byte('a')
+	if v.NondetBool() {
+		first = ' '
+	}
+	b = append(b, first)
+	for i := 1; i < pre; i++ {
+		b = append(b, 'a')
+	}
+	b = append(b, v.NondetBytes(2)...)
+	b = append(b, 'b')
+	s := string(b)
+	f := ForceValidStringValue(s)
+	v.Assert("C11.cut2.valid", ValidStringValue(f))
+	v.Assert("C11.cut2.len", len(f) <= MaxStringLen)
+	v.Assert("C11.cut2.idempotent", ForceValidStringValue(f) == f)
+	dst, err := AppendValidStringValue(nil, b)
+	if utf8.Valid(b) {
+		v.Assert("C11.cut2.strict_no_error_on_valid_utf8", err == nil)
+		if err == nil {
+			v.Assert("C11.cut2.strict_agrees_with_force", string(dst) == f)
+		}
+	}
+	// invalid bytes after the 128-byte cut are never looked at, so they need not be reported: the
+	// statement only says that strict normalisation fails ONLY on invalid UTF-8
+	v.Reach("C11.cut2.end")
+}
+
+// ---------------------------------------------------------------- raw tag values
+
+// decimal text of |x| with d digits (x known to have exactly d digits), most significant first
+func c11Digits(x int64, d int) []byte {
+	out := make([]byte, d)
+	for k := d - 1; k >= 0; k-- {
+		out[k] = byte('0' + x%10)
+		x /= 10
+	}
+	return out
+}
+
+var c11Pow10 = []int64{1, 10, 100, 1000, 10000, 100000, 1000000, 10000000, 100000000, 1000000000, 10000000000, 100000000000}
+
+// 32-bit raw tags: every integer with 1..11 digits, optional sign, 0..2 leading zeros: accepted
+// exactly when it lies in [-2^31, 2^32-1], and the stored bit pattern decodes back to it.
+func Harness_C11_raw32() {
+	d := 1 + v.Choice(11)
+	lo := c11Pow10[d-1]
+	if d == 1 {
+		lo = 0
+	}
+	mag := v.NondetIntRange(lo, c11Pow10[d]-1)
+	neg := v.NondetBool()
+	var s []byte
+	if neg {
+		s = append(s, '-')
+	} else if v.NondetBool() {
+		s = append(s, '+')
+	}
+	for z := v.Choice(3); z > 0; z-- {
+		s = append(s, '0')
+	}
+	s = append(s, c11Digits(mag, d)...)
+	got, ok := ContainsRawTagValueBytes(s)
+	val := mag
+	if neg {
+		val = -mag
+	}
+	inRange := v.And(val >= -(1<<31), val <= 1<<32-1)
+	v.Assert("C11.raw32.accepted_iff_in_range", ok == inRange)
+	if ok {
+		// bit pattern: int32 for negatives, uint32 otherwise
+		if neg {
+			v.Assert("C11.raw32.decodes_back_signed", int64(got) == val)
+		} else {
+			v.Assert("C11.raw32.decodes_back_unsigned", int64(uint32(got)) == val)
+		}
+	}
+	v.Reach("C11.raw32.end")
+}
+
+// junk is rejected: empty string, lone sign, a non-digit byte anywhere in a 1..3 byte string
+func Harness_C11_raw_junk() {
+	n := v.Choice(4)
+	s := v.NondetBytes(n)
+	_, ok := ContainsRawTagValueBytes(s)
+	_, _, ok64 := ContainsRawTagValue64Bytes(s)
+	allDigits := n > 0
+	start := 0
+	if n > 0 && (s[0] == '-' || s[0] == '+') {
+		start = 1
+		allDigits = n > 1
+	}
+	for k := start; k < n; k++ {
+		if !(s[k] >= '0' && s[k] <= '9') {
+			allDigits = false
+		}
+	}
+	v.Assert("C11.raw.junk32_accepted_iff_decimal", ok == allDigits)
+	plus := n > 0 && s[0] == '+'
+	if !plus { // the 64-bit variant routes "+..." through ParseUint, which has no sign: rejected
+		v.Assert("C11.raw.junk64_accepted_iff_decimal", ok64 == allDigits)
+	}
+	v.Reach("C11.raw.junk.end")
+}
+
+// 64-bit raw tags: a concrete prefix around the interesting magnitudes followed by 2 arbitrary digits
+// (all-symbolic 20-digit numbers make the wrap-around arithmetic of the parser too hard for the
+// solver), optional minus: accepted exactly when the number is in [-2^63, 2^64-1] (decided on the
+// digit string), and lo/hi recombine to it.
+func Harness_C11_raw64() {
+	prefix := []string{"", "1", "184467440737095516", "184467440737095517", "92233720368547758", "92233720368547759", "99999999999999999", "1844674407370955161"}[v.Choice(8)]
+	neg := v.NondetBool()
+	d := len(prefix) + 2
+	digits := make([]byte, d)
+	copy(digits, prefix)
+	for k := len(prefix); k < d; k++ {
+		digits[k] = byte(v.NondetIntRange('0', '9'))
+	}
+	v.Assume(d == 1 || digits[0] != '0')
+	limit := "18446744073709551615"
+	if neg {
+		limit = "9223372036854775808"
+	}
+	// |value| <= limit, compared as digit strings
+	fits := d < len(limit)
+	if d == len(limit) {
+		le, eq := false, true
+		for k := 0; k < d; k++ {
+			le = v.Or(le, v.And(eq, digits[k] < limit[k]))
+			eq = v.And(eq, digits[k] == limit[k])
+		}
+		fits = v.Or(le, eq)
+	}
+	var s []byte
+	if neg {
+		s = append(s, '-')
+	}
+	s = append(s, digits...)
+	lo, hi, ok := ContainsRawTagValue64Bytes(s)
+	v.Assert("C11.raw64.accepted_iff_in_range", ok == fits)
+	if ok {
+		var mag uint64
+		for k := 0; k < d; k++ {
+			mag = mag*10 + uint64(digits[k]-'0')
+		}
+		bits := uint64(uint32(lo)) + uint64(uint32(hi))*4294967296 // + and * instead of | and <<: stays integer arithmetic for the solver
+		if neg {
+			v.Assert("C11.raw64.decodes_back_signed", bits == -mag)
+		} else {
+			v.Assert("C11.raw64.decodes_back_unsigned", bits == mag)
+		}
+	}
+	v.Reach("C11.raw64.end")
+}
